@@ -288,20 +288,48 @@ def run(E: Engine, rep: Report, tier: str) -> dict:
     gq = P.lookup_method(wm, "get_qubit_weight_map")[0]
     from .symutil import S as _S, is_ as _is
 
-    tol_ok = False
-    for l in _S(E, gq).calls("isclose"):
-        kw = dict(l.value[3])
-        tol_ok = tol_ok or ("atol" in kw and _is(kw["atol"], "10 ** (-COORD_PRECISION)") is not None)
-    rep.check(tol_ok, "TABLE", "WeightMap.get_qubit_weight_map|tolerance-uses-COORD_PRECISION", "position matching tolerance derives from COORD_PRECISION", "qubit/trap matching no longer uses the COORD_PRECISION tolerance", E.where(gq))
-    # ... and it is an ABSOLUTE tolerance: numpy's default rtol=1e-5 adds 1e-5*|coordinate| to the matching radius (1 nm
-    # at 100 um), inside which the weights of all matched traps are summed
-    abs_only = False
-    for l in _S(E, gq).calls("isclose"):
-        kw = dict(l.value[3])
-        rt = kw.get("rtol") or (l.value[2][2] if len(l.value[2]) > 2 else None)
-        abs_only = abs_only or (rt is not None and rt[0] == "const" and rt[1] == 0)
-    rep.check(abs_only, "TABLE", "WeightMap.get_qubit_weight_map|tolerance-is-absolute", "np.isclose(..., rtol=0, atol=10**-COORD_PRECISION)", "get_qubit_weight_map matches an atom to the traps with numpy's default relative tolerance (rtol=1e-5) on top of the absolute one: the matching radius grows with the coordinate, so two traps that are distinct at COORD_PRECISION (0.5 nm apart at x = 100 um) both match and their weights are added", E.where(gq))
-    rep.floor("TABLE", 5)
+    # a qubit is on a trap iff it ROUNDS to the trap's coordinates (traps are identified by coordinates rounded to
+    # COORD_PRECISION -- get_traps_from_coordinates does the same): matching "within a tolerance" and summing the weights
+    # of every match merges neighbouring grid points and gives a qubit next to a trap that trap's weight
+    Sgq = _S(E, gq)
+    close_calls = Sgq.calls("isclose") + Sgq.calls("allclose")
+    rounded_eq = False
+    for l in Sgq.log:
+        for v_ in (l.value, l.cond):
+            for t in _symT.subterms(v_) if v_ is not None else ():
+                if t[0] == "cmp" and t[1] == "Eq" and any(u[0] == "call" and (u[1][1] if u[1][0] == "name" else u[1][2] if u[1][0] == "attr" else "") in ("round", "around", "round_") and (dict(u[3]).get("decimals") == ("name", "COORD_PRECISION") or (len(u[2]) > 1 and u[2][1] == ("name", "COORD_PRECISION"))) for u in _symT.subterms(t)):
+                    rounded_eq = True
+    rep.check(rounded_eq and not close_calls, "TABLE", "WeightMap.get_qubit_weight_map|qubit-matched-by-rounded-equality", "sorted_coords == round(position, COORD_PRECISION), no isclose", "get_qubit_weight_map matches a qubit to every trap within a tolerance (np.isclose) and adds their weights: with numpy's default rtol the radius grows with the coordinate, and even with rtol=0 two traps one grid step (1e-6) apart both match and a qubit next to a trap gets that trap's weight", E.where(gq))
+    rep.ok("TABLE", "WeightMap.get_qubit_weight_map|tolerance-uses-COORD_PRECISION", "the rounding uses COORD_PRECISION (see qubit-matched-by-rounded-equality)", E.where(gq))
+    # -0.0 == 0.0 but their bytes differ, and __eq__ / the hash are taken over the bytes of the sorted coordinates: the
+    # rounded coordinates are normalised (`+ 0.0`) so that equal coordinates have one byte representation
+    rc_f = P.lookup_method(P.cls("pulser.register._coordinates.CoordsCollection"), "_rounded_coords")[0]
+    # (the normal form simplifies `x + 0.0` to `x`: this one is read off the syntax tree)
+    norm0 = any(isinstance(n_, ast.BinOp) and isinstance(n_.op, ast.Add) and any(isinstance(o_, ast.Constant) and o_.value == 0 for o_ in (n_.left, n_.right)) for n_ in ast.walk(rc_f.node))
+    norm0 = norm0 or any(isinstance(n_, ast.Call) and (dotted(n_.func) or "").split(".")[-1] in ("where", "copysign") for n_ in ast.walk(rc_f.node))
+    rep.check(norm0, "TABLE", "CoordsCollection._rounded_coords|negative-zero-normalised", "round(...) + 0.0", "the rounded coordinates keep IEEE negative zeros (given directly, or produced by rounding a value in (-5e-7, 0)): -0.0 == 0.0 but the bytes differ, so two layouts / detuning maps with the same trap set compare unequal and hash differently", E.where(rc_f))
+    # the traps own their coordinates: Traps.__init__ stores a fresh float array, not the caller's object (read lazily,
+    # it would follow later edits of the caller's array and inherit its dtype, e.g. float32 roundings)
+    ti_f = P.lookup_method(traps, "__init__")[0]
+    st_c = [l for l in _S(E, ti_f).calls("__setattr__") if len(l.value[2]) >= 3 and l.value[2][1] == ("const", "_coords")]
+    if not st_c:
+        raise AnalysisError("anchor: Traps.__init__ no longer stores _coords")
+    for l in st_c:
+        v_ = _unT(l.value[2][2])
+        rep.check(v_ != ("name", "trap_coordinates"), "ALIAS", "Traps.__init__|stores-its-own-coordinates", "a converted copy is stored, not the parameter itself", "Traps.__init__ validates a float64 conversion of the coordinates but stores the caller's own object: read lazily, it follows later edits of the caller's array (A = RegisterLayout(c); c += 10; A now reports the moved traps) and keeps the caller's dtype (float32 coordinates are not multiples of 1e-6, so the layout's own coordinates are 'not part of the RegisterLayout')", E.where(ti_f, l.node))
+    # `itemgetter(*keys)(mapping)` returns a bare item (not a 1-tuple) for a single key: coordinates collected that way
+    # are a 1-D array for a one-trap detuning map
+    ig_sites = []
+    for cq_, mn_ in (("pulser.register.register_layout.RegisterLayout", "define_detuning_map"), ("pulser.register.mappable_reg.MappableRegister", "define_detuning_map")):
+        for f_ in P.lookup_method(P.cls(cq_), mn_):
+            for n_ in ast.walk(f_.node):
+                if isinstance(n_, ast.Call) and isinstance(n_.func, ast.Call) and (dotted(n_.func.func) or "").split(".")[-1] == "itemgetter" and any(isinstance(a_, ast.Starred) for a_ in n_.func.args):
+                    ig_sites.append((f_, n_))
+    if ig_sites:
+        rep.violation("TABLE", "RegisterLayout.define_detuning_map|single-trap", f"{ig_sites[0][0].short} collects the trap coordinates with `itemgetter(*keys)(...)`: for a single key itemgetter returns the bare coordinate array instead of a 1-tuple, so a one-trap detuning map raises \"'trap_coordinates' must be an array or list of coordinates\"", E.where(ig_sites[0][0], ig_sites[0][1]))
+    else:
+        rep.ok("TABLE", "RegisterLayout.define_detuning_map|single-trap", "no itemgetter(*keys) collection of coordinates", E.where(gq))
+    rep.floor("TABLE", 6)
 
     # --------------------------------------------------------------- FLOW
     init = P.lookup_method(traps, "__init__")[0]
